@@ -536,7 +536,7 @@ def r8_1_decoration(ctx, prog, rule="R8.1"):
                 continue
             if {r[1] for r in removes} != STRIP:
                 ok, why = False, "strip set %s != the 8 credential types" % sorted({r[1] for r in removes})
-            if adds and max(r[0] for r in removes) > min(a[0] for a in adds):
+            if adds and removes and max(r[0] for r in removes) > min(a[0] for a in adds):
                 ok, why = False, "an attribute is added before the stripping is complete"
             want = []
             for x in exp:
